@@ -49,7 +49,7 @@ def step (s : St) (w : List String) : St × String :=
   | ["headlen"] => (s, toString (encodeHead 0 0 0 0).length)
   | ["enc", f, k, v] =>
     match f.toNat?, parseHex? k, parseHex? v with
-    | some f, some k, some v => (s, hexOf (encodeRecord 0 0 ⟨f, k, v⟩))
+    | some f, some k, some v => (s, hexOf (fileUtilsEncode 0 ⟨f, k, v⟩))
     | _, _, _ => (s, "bad-op")
   | ["file", h] =>
     match parseHex? h with
@@ -58,6 +58,10 @@ def step (s : St) (w : List String) : St × String :=
   | ["scan", cut, zt] =>
     match cut.toNat?, zt.toNat? with
     | some cut, some zt => (s, showScan (scan (s.file.take cut ++ zeros zt)))
+    | _, _ => (s, "bad-op")
+  | ["scanlegacy", cut, zt] =>
+    match cut.toNat?, zt.toNat? with
+    | some cut, some zt => (s, showScan (scanLegacy (s.file.take cut ++ zeros zt)))
     | _, _ => (s, "bad-op")
   | _ => (s, "bad-op")
 
